@@ -496,9 +496,16 @@ func (c *Ctx) plainCodecRules(r *Report, prefix string) {
 	w.nestedDispatchRule(r, prefix+"nested-dispatch")
 	c.valueGuardRule(r, prefix+"value-guards")
 	w.lengthGuardRule(r, prefix+"decode.length-guards")
+	// decoding is a function of the octets, not of what an earlier call left in the object decoded into
+	dscope := c.DecodeScope(r, prefix)
+	c.decodeInputOnlyRule(r, prefix+"decode.input-only", dscope)
+	c.noTruncateInPlaceRule(r, prefix+"decode.no-truncate-in-place", dscope)
 	c.encodeTotality(r, prefix)
 	c.akaRules(r, prefix, "roundtrip")
 	c.akaPaddingRule(r, prefix)
+	// the value a setter keeps is exactly the value given (a buffer kept from an earlier, longer value would put
+	// stale octets into the message that is encoded)
+	c.akaValueIdentityRule(r, prefix)
 	c.elementFreshRule(r, prefix+"decode.element-fresh")
 	c.encodeOwnHeaderRule(r, prefix+"encode-own-header")
 	// encoding is a function of the message's value: nothing is written through message-owned slices (a transform
